@@ -21,6 +21,11 @@ def obligations(tier):
             obs.append(Ob(id=f'slices/{nm}/rows{mr}xthreads{mt}', harness='C13/slices.c', tus=T, defs={'HP_SITE': site, 'HP_MAXR': mr, 'HP_MAXT': mt}, engine='bits',
                           unwind=max(mr, mt) + 2, timeout=300 if not th else 1800, clause='every row is processed by exactly one worker', stubs=('pthread_rec.c',), object_bits=10,
                           unwindset=(f'DVectorResize.0:{mr*(mr-1)//2+2}',) if site in (4, 5, 6, 7) else ()))
+    for which, nm in ((0, 'matvec'), (1, 'vecmat')):
+        for (r, c, t) in ([(2, 1, 2), (1, 2, 2), (2, 2, 2)] if not th else [(2, 1, 2), (1, 2, 2), (2, 2, 2), (3, 2, 2), (3, 3, 3), (2, 3, 2)]):
+            full = (which == 0 and c == 1) or (which == 1 and r == 1)      # one product per output: any double content; otherwise the special-value alphabet
+            obs.append(Ob(id=f'values/mt_special/{nm}/{r}x{c}t{t}/{"any_double" if full else "alphabet"}', harness='C13/mtspecial.c', tus=T, defs={'HP_WHICH': which, 'HP_R': r, 'HP_C': c, 'HP_T': t, 'HP_ALPHA': 0 if full else 1}, engine='bits', unwind=6, timeout=300 if not th else 1800,
+                          clause='multithreaded matrix-vector products = sequential kernels for every double content (NaN/Inf/MISSING)', stubs=('sym_pthread_sync.c',), object_bits=10, flags=('--sat-solver', 'cadical')))
     # values (E-REAL)
     R = ('sym_real_env_uf.c', 'sym_pthread_sync.c')
     to = 120 if not th else 900
